@@ -108,6 +108,7 @@ void recursive_aln(struct msa* msa, struct aln_tasks*t, struct aln_param* ap, ui
         alloc_aln_mem(&ml, 256);
 
         ml->ap = ap;
+        ml->run_parallel = msa->run_parallel;
         ml->mode = ALN_MODE_FULL;
         KALIGN_VERIF_EVENT(KV_EV_MERGE_BEGIN, msa, t, c, 0, 0);
         do_align(msa,t,ml,c);
